@@ -6,6 +6,7 @@ import JubakoModel.Model.AtomicFs
 import JubakoModel.Lemmas.AtomicFs
 import JubakoModel.Model.BasicCreatorFs
 import JubakoModel.Lemmas.BasicCreatorFs
+import JubakoModel.Lemmas.FuncsFs
 
 namespace Jubako
 
@@ -125,5 +126,20 @@ example : (creationTrace .noConcat (FinNames.ofEntry "out.jbk" ".tmpA" ".tmpB" "
 /-- non-vacuity: the creator's shape of run is disciplined; entry-point first is rejected -/
 example : Discipline exIsTemp "out.jbk" [] exTrace = true := exTrace_disciplined
 example : Discipline exIsTemp "out.jbk" [] exTraceBad = false := exTraceBad_rejected
+
+/-! ### Tie of the modelled creation runs to the source -/
+
+/-- **The order in which the modelled creation runs publish their files is the order of the publishing
+    statements of `BasicCreator::finalize` as extracted from `creator/basic_creator.rs` on every run**: the
+    extracted sequence of `AtomicOutFile::new` / `close_file` statements is `finalizePublications` (and the
+    function contains no other file-system operation), and for every packaging the renames of
+    `creationTrace` are, in order, the targets of those statements the packaging executes — the entry point
+    last (`c09_modes`, `c09_creation_crash`, `c09_creation_error_return` are about these traces). -/
+theorem c09_publication_order_is_source_order :
+    Generated.basicCreatorPublications = finalizePublications ∧
+    ∀ (m : ConcatMode) (n : FinNames) (w : FinWrites),
+      renameTargets (creationTrace m n w) =
+        (finalizePublications.filter (PubStmt.runsIn m)).filterMap (PubStmt.target n) :=
+  ⟨gen_basicCreatorPublications, creationTrace_renames⟩
 
 end Jubako
